@@ -155,6 +155,27 @@ pub fn codec_table(bytes: &[u8]) -> String {
     if rows.is_empty() { "-".into() } else { rows.join(";") }
 }
 
+/// Does some entry of `bytes` decode differently under the four consumer APIs of `read_all`?  Real decoders are
+/// schedule dependent on DAMAGED streams (a zstd frame whose declared content size was altered ends quietly
+/// through small buffers and reports "Data corruption detected" through large ones), while the model's decoder
+/// is a table raw bytes -> outcome.  Such cases are left out of the correspondence (counted in `dist`); what a
+/// completed read may return on damaged data is C04's subject.
+pub fn schedule_dependent(bytes: &[u8]) -> bool {
+    let b = bytes.to_vec();
+    catch(move || {
+        let mut a = match zip::ZipArchive::new(Cursor::new(b)) { Ok(a) => a, Err(_) => return false };
+        for i in 0..a.len().min(64) {
+            let mut seen: Option<String> = None;
+            for api in 0..4u32 {
+                reset_read_api(api);
+                let r = match a.by_index(i) { Ok(mut f) => read_all(&mut f), Err(_) => break };
+                match &seen { None => seen = Some(r), Some(s) => if *s != r { return true; } }
+            }
+        }
+        false
+    }).unwrap_or(false)
+}
+
 pub fn run_seek(bytes: Vec<u8>, pw: Option<Vec<u8>>) -> String {
     reset_read_api(bytes.len() as u32);
     let r = catch(move || {
@@ -729,6 +750,90 @@ pub fn rand_layout(r: &mut Rng) -> (Layout, String) {
     (l, e)
 }
 
+/// F7: layouts `rand_layout` (and the Lean `Spec.Zip.Layout`) cannot express, all of them well-formed and read
+/// correctly by conforming readers: the central directory lists the entries in another order than the local
+/// records lie in the file; the central ZIP64 record sits behind other extra records; it carries the 4-byte
+/// disk-start field; a forced ZIP64 end record next to a plain end record that keeps the real values; an
+/// extensible data sector in the ZIP64 end record.  Returns the layout, the expectation (entries in CENTRAL
+/// order) and the features used.
+pub fn rand_layout_g(r: &mut Rng) -> (Layout, String, Vec<&'static str>) {
+    let (mut l, e) = loop {
+        let (l, e) = rand_layout(r);
+        if l.entries.len() >= 2 || (l.entries.len() == 1 && r.chance(1, 4)) { break (l, e); }
+    };
+    let n = l.entries.len();
+    let mut feats = vec![];
+    let mut order: Vec<usize> = (0..n).collect();
+    if n >= 2 && r.chance(2, 3) {
+        match r.below(3) {
+            0 => order.reverse(),
+            1 => { let k = r.range(1, n as u64) as usize; order.rotate_left(k); }
+            _ => { for i in (1..n).rev() { let j = r.below(i as u64 + 1) as usize; order.swap(i, j); } }
+        }
+        if order.iter().enumerate().any(|(i, j)| i != *j) { feats.push("order"); l.cd_order = Some(order.clone()); }
+    }
+    for e in l.entries.iter_mut() {
+        if r.chance(1, 2) {
+            // 1..3 unknown records, the ZIP64 record (made non-empty) behind the first 1..k of them
+            let k = r.range(1, 4) as usize;
+            let mut x = vec![];
+            for _ in 0..k {
+                let id = *r.pick(&[0x5455u16, 0x7875, 0xcafe, 0x000a]);
+                let pl = { let n = r.below(10) as usize; r.bytes(n) };
+                x.extend_from_slice(&id.to_le_bytes());
+                x.extend_from_slice(&(pl.len() as u16).to_le_bytes());
+                x.extend_from_slice(&pl);
+            }
+            e.central_extra = x;
+            if e.zip64_central == (false, false, false) { e.zip64_central = *r.pick(&[(true, false, false), (false, true, false), (false, false, true), (true, true, false), (true, true, true), (false, true, true), (true, false, true)]); }
+            e.zip64_central_pos = r.range(1, k as u64 + 1) as usize;
+            if !feats.contains(&"z64pos") { feats.push("z64pos"); }
+        }
+        if r.chance(1, 4) {
+            e.zip64_disk = Some(0);
+            if !feats.contains(&"z64disk") { feats.push("z64disk"); }
+        }
+    }
+    if r.chance(1, 3) {
+        l.zip64_eocd = true;
+        l.trailing.clear();
+        l.prefix.truncate(3000);
+        if r.chance(2, 3) { l.eocd_unsaturated = true; feats.push("eocd-unsaturated"); }
+        if r.chance(2, 3) {
+            // APPNOTE 4.3.14.2: header id (2 bytes), data size (4 bytes), data
+            let pl = { let n = r.below(30) as usize; r.bytes(n) };
+            let mut x = 0x0065u16.to_le_bytes().to_vec();
+            x.extend_from_slice(&(pl.len() as u32).to_le_bytes());
+            x.extend_from_slice(&pl);
+            l.end64_ext = x;
+            feats.push("end64-ext");
+        }
+        // with ZIP64 records the locator names the position of the ZIP64 end record, so bytes between the last
+        // central record and that record are harmless (without ZIP64 records they would read as a prefix)
+        if r.chance(1, 3) { l.gap_before_end = { let n = r.range(1, 12) as usize; r.bytes(n) }; feats.push("end64-gap"); }
+    }
+    let parts: Vec<&str> = e.split(';').collect();
+    let mut exp: Vec<String> = parts[..3].iter().map(|s| s.to_string()).collect();
+    exp[1] = l.prefix.len().to_string();
+    for &i in &order { exp.push(parts[3 + i].to_string()); }
+    (l, exp.join(";"), feats)
+}
+
+/// F7 (d): layouts APPNOTE does not allow and no reader can be expected to serve - bytes between two central
+/// records, or between the central directory and the end records (indistinguishable from a prefix).  No
+/// expectation: the model must answer the same as the implementation, and nothing may panic.
+pub fn rand_layout_nonconforming(r: &mut Rng) -> (Layout, &'static str) {
+    let mut l = loop { let (l, _) = rand_layout(r); if !l.entries.is_empty() { break l; } };
+    if r.chance(1, 2) {
+        let i = r.below(l.entries.len() as u64) as usize;
+        l.entries[i].cd_gap_before = { let n = r.range(1, 12) as usize; r.bytes(n) };
+        (l, "cdgap")
+    } else {
+        l.gap_before_end = { let n = r.range(1, 12) as usize; r.bytes(n) };
+        (l, "endgap")
+    }
+}
+
 /// An archive produced by the crate's own writer.
 pub fn writer_archive(r: &mut Rng) -> (Vec<u8>, String) {
     use std::io::Write;
@@ -943,6 +1048,10 @@ impl Stream for ReadStream {
         let mut napp = 0u64;
         let mut push = |g: &mut GenOut, kind: &str, bytes: &[u8], expect: Option<String>, stream_too: bool| {
             let codec = codec_table(bytes);
+            if codec != "-" && expect.is_none() && schedule_dependent(bytes) {
+                *g.dist.entry(format!("gen.skipped.schedule-dependent-decoder.{kind}")).or_insert(0) += 1;
+                return;
+            }
             let e = expect.map(|e| format!(" expect={e}")).unwrap_or_default();
             g.push(&format!("seek.{kind}"), format!("read.seek bytes={} codec={codec}{e}", hex(bytes)));
             if stream_too {
@@ -961,6 +1070,24 @@ impl Stream for ReadStream {
             let (l, e) = rand_layout(&mut r);
             let b = mkzip::build(&l);
             push(&mut g, "builder", &b.bytes, Some(e), r.chance(1, 3));
+        }
+        // (a2) F7: well-formed layouts beyond `Spec.Zip.Layout`: permuted central directory, ZIP64 record behind
+        // other extra records / with the disk-start field, unsaturated end record next to forced ZIP64 records,
+        // extensible data sector; (a3) non-conforming gaps inside / behind the central directory (no expectation)
+        for _ in 0..300 * scale {
+            idx += 1;
+            let mut r = super::rng_for(seed, "read.wfg", idx);
+            let (l, e, feats) = rand_layout_g(&mut r);
+            let b = mkzip::build(&l);
+            for f in &feats { *g.dist.entry(format!("gen.feature.{f}")).or_insert(0) += 1; }
+            push(&mut g, "builder.g", &b.bytes, Some(e), r.chance(1, 3));
+        }
+        for _ in 0..60 * scale {
+            idx += 1;
+            let mut r = super::rng_for(seed, "read.nc", idx);
+            let (l, kind) = rand_layout_nonconforming(&mut r);
+            let b = mkzip::build(&l);
+            push(&mut g, &format!("nonconforming.{kind}"), &b.bytes, None, false);
         }
         // (b) the crate's writer
         for _ in 0..200 * scale {
